@@ -19,6 +19,7 @@ import (
 	"github.com/vmihailenco/msgpack/v5"
 
 	"github.com/honeycombio/refinery/config"
+	"github.com/honeycombio/refinery/internal/simhook"
 	"github.com/honeycombio/refinery/logger"
 	"github.com/honeycombio/refinery/metrics"
 	"github.com/honeycombio/refinery/types"
@@ -392,6 +393,7 @@ var readerPool = sync.Pool{
 
 // Sends one message or, if the batch is larger than what is allowed, several.
 func (d *DirectTransmission) sendBatch(wholeBatch []*types.Event) {
+	simhook.Yield("transmit.sendBatch")
 	subBatch := make([]*types.Event, 0, len(wholeBatch))
 
 	for len(wholeBatch) > 0 {
